@@ -162,11 +162,19 @@ def walk_system(ctx, objs, tolerant=False):
                 check_tree(ctx, name, attr, val, seen, tolerant)
 
 
-def h_tree(ctx, skeleton, n, drivers, args=None, alt_units=None, values=None):
+def h_tree(ctx, skeleton, n, drivers, args=None, alt_units=None, values=None, tz=None, start=None):
     """alt_units=k: every input that has another spelling is given in its k-th alternative unit (operands of one
     operation then come in different units of one dimension); values: concrete overrides (e.g. a short storage duration,
     so that expiries really happen within the modelled period)"""
     spec = M.SKELETONS[skeleton](n, **(args or {}))
+    # tz / start: time zones per country and a common local start date (a series that spans a fall-back transition has
+    # a hole in its UTC index: operands with the same first stamp and length but different time stamps)
+    for c, z in (tz or {}).items():
+        spec["countries"][c]["tz"] = z
+    if start:
+        from datetime import datetime
+        for po in spec["patterns"].values():
+            po["starts"]["start"] = datetime.fromisoformat(start)
     sym = traffic_syms(spec)
     items = []
     if "job" in drivers:
@@ -239,6 +247,8 @@ def plan(tier, seed):
          ("tree", dict(skeleton="T4", n=2, drivers=["usage"])),
          ("tree", dict(skeleton="T5", n=2, drivers=["infra"])),
          ("tree", dict(skeleton="T7", n=2, drivers=["job"])),
+         ("tree", dict(skeleton="T3", n=5, drivers=["job"], tz={"fr": "Europe/Paris", "my": "Africa/Johannesburg"}, start="2025-10-26T00:00:00")),
+         ("tree", dict(skeleton="T2c", n=4, drivers=[], tz={"fr": "America/New_York", "de": "America/Bogota"}, start="2025-11-02T00:00:00")),
          ("tree_builders", dict(kind="video", choice="720p (1280 x 720)")),
          ("tree_builders", dict(kind="web", choice=["php-symfony", "default"])),
          ("tree_builders", dict(kind="genai", choice=["mistralai", "open-mistral-7b"])),
